@@ -169,6 +169,34 @@ def c14(tier):
         item["type_attrs"] = [x for x in item["type_attrs"] if x[0] != "ord"] + [("ord", "#[ord(ignore)]")]
         D = ["Ord", "Clone"]
         cases.append({"item": item, "D": D, "args": ", ".join(D), "src": c14_src(item), "lists_ok": True, "extra": ""})
+    # an invalid helper attribute at the type, a variant or a field (struct and enum), next to nested / stacked derive_ex attributes:
+    # the lists were read, the derivation fails as a whole, and the item comes back without any of derive_ex's own attributes
+    BAD = {"ord": ("Ord", ["#[ord(ignore)]", "#[ord(nonsense)]", "#[ord = 1]"]), "debug": ("Debug", ["#[debug(bond(T))]", "#[debug = 2]"]),
+           "default": ("Default", ["#[default(1, 2)]"]), "hash": ("Hash", ["#[hash(reverse)]", "#[hash(what)]"]), "eq": ("PartialEq", ["#[eq(reverse)]"])}
+    for n in range(N // 8):
+        kind = rnd.choice(["struct", "enum"])
+        item, uid = c14_item(rnd, kind, uid)
+        h = rnd.choice(sorted(BAD))
+        tr, texts = BAD[h]
+        place = rnd.choice(["type", "field"] + (["variant"] if kind == "enum" else []))
+        text = rnd.choice(texts)
+        if place != "type" and text in ("#[ord(ignore)]",):
+            text = "#[ord(nonsense)]"              # `ignore` is legitimate on a field
+        if place == "type":
+            item["type_attrs"] = [x for x in item["type_attrs"] if x[0] != h] + [(h, text)]
+        elif place == "variant":
+            v = rnd.choice(item["variants"])
+            v["attrs"] = [x for x in v["attrs"] if x[0] != h] + [(h, text)]
+        else:
+            vs = [v for v in item["variants"] if v["fields"]]
+            if not vs:
+                continue
+            f = rnd.choice(rnd.choice(vs)["fields"])
+            f["attrs"] = [x for x in f["attrs"] if x[0] != h] + [(h, text)]
+        D = [tr] + rnd.sample([t for t in ENUM_TRAITS if t != tr], rnd.choice([0, 1, 2]))
+        rnd.shuffle(D)
+        extra = rnd.choice(["", "", "#[derive_ex(bound(u8: Q0, ..))]"])
+        cases.append({"item": item, "D": D, "args": ", ".join(D), "src": c14_src(item, extra_type_attrs=extra), "lists_ok": True, "extra": extra})
     reqs = []
     for i, c in enumerate(cases):
         reqs.append({"k": "items", "id": 2 * i, "src": c["src"]})
@@ -352,6 +380,32 @@ def c15(tier):
         a = add("attr", r[0]["attr"], r[0]["item"])
         d = add("derive", "", r[1]["item"])
         plan.append(("entry", a, d, None))
+    # every placement of bound(...) on the comparison helper attributes (type / variant / field), both entry points
+    for t in cf.TRAITS:
+        for P in checks_bnd.cmp_level_items(t, "quick", rnd):
+            r = bf.requests_for(P, 0)
+            a = add("attr", r[0]["attr"], r[0]["item"])
+            d = add("derive", "", r[1]["item"])
+            plan.append(("entry", a, d, None))
+    # a shared bound(...) belongs to ITS list only: `#[derive_ex(A, b)] #[derive_ex(B)]` is `#[derive_ex(A(b), B)]`, in either order of the lists
+    gitems = ["struct X<T>(T, u8);", "enum X<T> { A(T), B }", "struct X<T, U> { a: T, b: ::core::option::Option<U> }"]
+    btexts = ["bound(T: ::core::marker::Copy)", "bound()", "bound(T: ::core::marker::Copy, ..)", "bound(::core::option::Option<T>)"]
+    tl = ["Clone", "Debug", "PartialEq", "Hash", "PartialOrd"]
+    for it in gitems:
+        for b in btexts:
+            for A in tl:
+                for B in tl:
+                    if A == B:
+                        continue
+                    for entry in ("attr", "derive"):
+                        def two(l1, l2):
+                            if entry == "attr":
+                                return add("attr", l1, "#[derive_ex(%s)] %s" % (l2, it))
+                            return add("derive", "", "#[derive_ex(%s)] #[derive_ex(%s)] %s" % (l1, l2, it))
+                        def one(l):
+                            return add(entry, l if entry == "attr" else "", it if entry == "attr" else "#[derive_ex(%s)] %s" % (l, it))
+                        plan.append(("split", two("%s, %s" % (A, b), B), one("%s(%s), %s" % (A, b, B)), None))
+                        plan.append(("split", two(B, "%s, %s" % (A, b)), one("%s, %s(%s)" % (B, A, b)), None))
     resps = dx.expand(reqs)
     events = []
     for rel, x, y, extra in plan:
@@ -827,10 +881,16 @@ def impl_pipe_events(rnd):
             src_args = [{"bin": op, "assign": op + "Assign", "other_op": other + ("Assign" if n % 2 else ""), "unknown": ["Clone", "Foo", "Neg"][n % 3]}[a] for a in I["args"]]
             sl, rr = ("&" if I["bl"] == "r" else ""), ("&" if I["br"] == "r" else "")
             ik = I["ikind"]
+            # the right operand left to the trait's default (`impl Add for X`) or written as an empty list (`impl Add<> for X`): Rhs = Self
+            rhs_form = ["explicit", "default", "explicit", "empty"][(n + ops.index(op)) % 4] if (I["bl"] == I["br"] or ik == "assign") else "explicit"
+            if ik == "assign" and I["br"] == "r":
+                rhs_form = "explicit"
+            targ = {"explicit": "<%sY>" % rr, "default": "", "empty": "<>"}[rhs_form]
+            rty = ("%sY" % rr) if rhs_form == "explicit" else "Self"
             if ik == "bin":
-                item = "impl ::core::ops::%s<%sY> for %sX { %s fn f(self, r: %sY) -> X { todo!() } }" % (op, rr, sl, "type Output = X;" if I["output"] else "", rr)
+                item = "impl ::core::ops::%s%s for %sX { %s fn f(self, r: %s) -> X { todo!() } }" % (op, targ, sl, "type Output = X;" if I["output"] else "", rty)
             elif ik == "assign":
-                item = "impl ::core::ops::%sAssign<%sY> for X { fn f(&mut self, r: %sY) { } }" % (op, rr, rr)
+                item = "impl ::core::ops::%sAssign%s for X { fn f(&mut self, r: %s) { } }" % (op, targ, rty)
             elif ik == "inherent":
                 item = "impl X { fn f(&self) {} }"
             elif ik == "negative":
